@@ -38,7 +38,8 @@ KINDS = ["perfect", "shifted", "missing"]
 # (as an interpolated frame or a second dataset does) with one object less
 KINDS_X = ["cars_only", "none", "altframe"]
 CRITS = {"wide": dict(max_x_position_list=[50.0, 50.0], max_y_position_list=[50.0, 50.0]),
-         "narrow": dict(max_x_position_list=[10.0, 10.0], max_y_position_list=[10.0, 10.0])}
+         # the narrow filter also carries a confidence threshold (the extra estimate of the 'missing' operations, 0.33 + 0.01k, falls below it)
+         "narrow": dict(max_x_position_list=[10.0, 10.0], max_y_position_list=[10.0, 10.0], confidence_threshold_list=[0.4, 0.4])}
 OPS = [(k, kind, c) for k in range(3) for kind in KINDS for c in ("wide", "narrow")]
 N18 = len(OPS)
 OPS += [(k, kind, c) for k in range(3) for kind in KINDS_X for c in ("wide", "narrow")]   # indices >= N18: extended alphabet
@@ -126,6 +127,14 @@ class World:
         self.deep = self.deep_snapshot()
         self.fresh1 = {}
         self.fresh2 = {}
+        self._configs()
+
+    def _configs(self):
+        """ONE critical-filter / pass-fail configuration object per kind, reused by every operation on this manager (what a caller
+        that builds its frame configurations once does); a pristine manager gets new ones."""
+        self.crit = {c: CriticalObjectFilterConfig(self.ec, ["car", "pedestrian"], **CRITS[c]) for c in CRITS}
+        self.crit0 = {c: copy.deepcopy(self.crit[c].filtering_params) for c in CRITS}
+        self.pf = PerceptionPassFailConfig(self.ec, ["car", "pedestrian"], matching_threshold_list=[1.0, 1.0])
 
     def deep_snapshot(self):
         return [[(id(o), o.uuid, o.semantic_label.label, tuple(o.state.position), tuple(o.state.orientation.q), tuple(o.state.size),
@@ -138,6 +147,7 @@ class World:
             self.m = PerceptionEvaluationManager(self.ec)
         self.pristine = [list(f.objects) for f in self.m.ground_truth_frames]
         self.deep = self.deep_snapshot()
+        self._configs()
 
     def dataset_ok(self):
         for f, objs in zip(self.m.ground_truth_frames, self.pristine):
@@ -185,10 +195,11 @@ class World:
         E = self.estimates(op)
         E0 = list(E)
         snapE = [(e.uuid, tuple(e.state.position), e.semantic_score, e.semantic_label.label) for e in E]
-        crit = CriticalObjectFilterConfig(self.ec, ["car", "pedestrian"], **CRITS[c])
-        pf = PerceptionPassFailConfig(self.ec, ["car", "pedestrian"], matching_threshold_list=[1.0, 1.0])
+        crit, pf = self.crit[c], self.pf
         r = self.m.add_frame_result(f.unix_time, f, E, crit, pf)
         err = None
+        if repr(crit.filtering_params) != repr(self.crit0[c]):
+            err = "the caller's critical-filter configuration was modified: %r -> %r" % (self.crit0[c], crit.filtering_params)
         if len(E) != len(E0) or any(a is not b for a, b in zip(E, E0)) or snapE != [(e.uuid, tuple(e.state.position), e.semantic_score, e.semantic_label.label) for e in E]:
             err = "the caller's estimate list was modified"
         return summary(r, self.tracking), err
